@@ -426,6 +426,13 @@ def classify(o1, o2):
         key = "nondet:result"
     elif p.startswith("post"):
         f = p.split(".")[-1] if "." in p else p
+        for va, vb in zip(a.get("post", []), b.get("post", [])):
+            if va != vb and isinstance(va, dict) and isinstance(vb, dict):
+                for fld in ("type", "repr", "str", "dir", "json", "enc"):
+                    if va.get(fld) != vb.get(fld):
+                        f, x, y = fld, va.get(fld), vb.get(fld)
+                        break
+                break
         key = "nondet:value-" + re.sub(r"\[.*", "", f)
         if re.search(r"0x[0-9a-f]{6,}", str(x) + str(y)):
             key += ":address"
@@ -467,6 +474,9 @@ def nontrivial(prog, obs):
         e = st["out"].get("err")
         if e and "did you mean" in e.get("msg", ""):
             why.append("suggestion")
+    for v in obs.get("post", []):
+        if (v.get("type") == "dict" and v.get("enc", "").count(":") >= 3) or (v.get("type") == "set" and v.get("enc", "").count(",") >= 2):
+            why.append("container>=3")
     nd = sum(len(t.get("errors", [])) for t in obs.get("tc", [])) + sum(len(l.get("globals", [])) for l in obs.get("lint", []))
     if nd >= 2:
         why.append("diagnostics>=2")
@@ -493,6 +503,7 @@ def compare_programs(ctx, programs, nproc, minimise=True, batch=1):
         for i, o in zip(ids, outs):
             by.setdefault(i, []).append((rc if not o.strip() else 0, o, err, conf))
     failures = []
+    minimised = set()
     st = {"procs": len(jobs), "evals": len(programs) * nproc, "nontrivial": set(), "why": {}, "kinds": {}, "errors_seen": 0, "suggestions_seen": 0, "diagnostics_seen": 0,
           "configs": {"thread": 0, "alloc_noise": 0, "heap_noise": 0, "pre": 0, "gc_every": 0, "aslr_off": 0, "env_pad": 0}, "obs": {}}
     for _, conf in jobs:
@@ -535,8 +546,10 @@ def compare_programs(ctx, programs, nproc, minimise=True, batch=1):
         if diff:
             key, what, a, b = classify(ref, diff[0][1])
             q = p
-            if minimise:
-                q = minimise_program(ctx, p, budget=ctx.n(12, 40))
+            if minimise and key not in minimised and len(minimised) < 3:
+                # one minimisation per kind of difference (each candidate costs 20 processes)
+                minimised.add(key)
+                q = minimise_program(ctx, p, budget=ctx.n(10, 40))
             failures.append({"key": key,
                              "what": "program %s: output differs between processes (%d of %d runs differ from the plain run); %s"
                                      % (p["id"], len(diff), len(runs), what),
@@ -638,8 +651,8 @@ def model_tie(ctx, programs, obs_by_index):
                 dym_rows.append((m.group(1), fields, sm.group(1) if sm else None, p["id"]))
     text = ("From Coq Require Import ZArith NArith List String.\nFrom SV Require Import Determ.Model Determ.Cases.\n"
             "Import ListNotations.\nOpen Scope string_scope.\nOpen Scope Z_scope.\n")
-    hash_rows = hash_rows[:150]
-    dym_rows = dym_rows[:120]
+    hash_rows = hash_rows[:80]
+    dym_rows = dym_rows[:60]
     if hash_rows:
         text += "Eval vm_compute in (bad_hash [\n%s]).\n" % ";\n".join(
             "([%s], %s)" % ("; ".join(str(ord(c)) for c in s), sv.zlit(h)) for s, h in hash_rows)
@@ -674,7 +687,7 @@ def model_tie(ctx, programs, obs_by_index):
 
 def correspond(ctx):
     nproc = ctx.n(5, 10)
-    programs = corpus_programs() + gen_programs(ctx, ctx.n(40, 2500), ctx.n(66, 2500))
+    programs = corpus_programs() + gen_programs(ctx, ctx.n(30, 2500), ctx.n(42, 2500))
     ctx.log("programs=%d x %d processes (setarch=%s)" % (len(programs), nproc, bool(SETARCH)))
     failures, st = compare_programs(ctx, programs, nproc, batch=ctx.n(3, 4))
     ctx.log("evaluations=%d processes=%d nontrivial=%d errors=%d suggestions=%d diagnostics=%d differences=%d"
@@ -708,11 +721,11 @@ def correspond(ctx):
 
 
 def search(ctx, broken):
-    """a proof obligation or the tie is broken: deeper differential run (20 processes per program), minimising every
-    program whose output varies."""
+    """a proof obligation or the tie is broken: deeper differential run (12 processes per program), minimising every
+    program whose output varies (20 processes per bisection candidate)."""
     old = ctx.tier
-    programs = corpus_programs() + gen_programs(ctx, 100, 240)
-    failures, st = compare_programs(ctx, programs, 20)
+    programs = corpus_programs() + gen_programs(ctx, 60, 120)
+    failures, st = compare_programs(ctx, programs, 12, batch=4)
     ctx.tier = old
     f2, _, _ = model_tie(ctx, programs, st["obs"])
     return {"failures": failures + f2, "coverage": {"evaluations": st["procs"]}}
